@@ -20,6 +20,8 @@ import (
 
 const modulePath = "github.com/pion/transport/v3"
 
+var paramOverride string
+
 var (
 	verifDir = "/verif"
 	repoDir  = "/repo"
@@ -33,14 +35,15 @@ type HarnessPkg struct {
 
 // Prop is the registration of one property check.
 type Prop struct {
-	ID       string
-	Pkgs     []HarnessPkg
-	Tags     []string
-	InitPkgs []string // relative dirs whose init runs, dependency order
-	Runs     func(tier string) []gosym.RunConfig
-	Bounds   func(tier string) []string
-	Assume   []string // assumptions / stubs / contracts (static part)
-	Outside  []string
+	ID        string
+	Pkgs      []HarnessPkg
+	Tags      []string
+	InitPkgs  []string // relative dirs whose init runs, dependency order
+	Runs      func(tier string) []gosym.RunConfig
+	Bounds    func(tier string) []string
+	InstrDirs []string // packages (relative dirs) instrumented for schedule-controlled replays
+	Assume    []string // assumptions / stubs / contracts (static part)
+	Outside   []string
 	// Induction runs (by run name prefix "ind") need reach confirmation in the native harness.
 }
 
@@ -84,6 +87,7 @@ func (o *options) register(fs *flag.FlagSet) {
 	fs.BoolVar(&o.keepLogs, "logs", o.keepLogs, "keep SMT logs under /tmp/vlog")
 	fs.BoolVar(&o.trace, "trace", o.trace, "trace instructions")
 	fs.BoolVar(&o.noValidate, "novalidate", o.noValidate, "skip translator validation")
+	fs.StringVar(&paramOverride, "param", paramOverride, "override harness parameters: a=1,b=2")
 }
 
 func main() {
@@ -137,7 +141,9 @@ func main() {
 		fmt.Fprintln(os.Stderr, "unknown property", pos[0])
 		os.Exit(2)
 	}
-	os.Exit(checkProp(p, o.tier, o.onlyRun, o.keepLogs, o.trace, !o.noValidate))
+	code := checkProp(p, o.tier, o.onlyRun, o.keepLogs, o.trace, !o.noValidate)
+	pprof.StopCPUProfile()
+	os.Exit(code)
 }
 
 func envOr(k, d string) string {
@@ -225,6 +231,20 @@ func checkProp(p *Prop, tier, onlyRun string, keepLogs, trace, validate bool) in
 			continue
 		}
 		c.ModulePath = modulePath
+		if paramOverride != "" {
+			np := map[string]int64{}
+			for k, v := range c.Params {
+				np[k] = v
+			}
+			for _, kv := range strings.Split(paramOverride, ",") {
+				p := strings.SplitN(kv, "=", 2)
+				if len(p) == 2 {
+					n, _ := strconv.ParseInt(p[1], 10, 64)
+					np[p[0]] = n
+				}
+			}
+			c.Params = np
+		}
 		for _, d := range p.InitPkgs {
 			c.InitPkgs = append(c.InitPkgs, modulePath+"/"+d)
 		}
@@ -306,7 +326,7 @@ func checkProp(p *Prop, tier, onlyRun string, keepLogs, trace, validate bool) in
 				HarnessFiles: hs.files[hp.Dir], RTDir: filepath.Join(verifDir, "rt"), Tags: p.Tags}
 			dir := gosym.ReplayDir(filepath.Join(verifDir, "replays"), p.ID, r.Cfg.Name, v.Values)
 			if r.Cfg.Sched {
-				if err := gosym.PrepareSchedReplay(&spec, dir, r, v); err != nil {
+				if err := gosym.PrepareSchedReplay(l, &spec, dir, r, v, p.InstrDirs); err != nil {
 					inconcl = append(inconcl, r.Cfg.Name+": cannot prepare schedule replay: "+err.Error())
 					continue
 				}
